@@ -195,6 +195,19 @@ WITNESSES = [
          new='            _has_valid_combination(relevant_term_spin_idx_maps, 0, spin_idx_map)'),
     dict(id="c15-itmd-blocks-targets", prop="C15", file="intermediates.py", expect="R15h",
          old="        return allowed_spin_blocks(itmd.expand(), target_idx)", new="        return allowed_spin_blocks(itmd.expand(), target_idx[::-1])"),
+    # fix b5a3f06: a block that gives a repeated index two spins vanishes instead of raising
+    dict(id="c15-repeated-index-revert-integrate", prop="C15", file=S, expect="R15f",
+         old='                if idx_map["a"] & idx_map["b"]:\n                    continue\n                obj_spin_idx_maps.append(idx_map)',
+         new='                if idx_map["a"] & idx_map["b"]:\n                    raise ValueError("Found invalid allowed spin block "\n                                     f"{block} for {obj}.")\n                obj_spin_idx_maps.append(idx_map)'),
+    dict(id="c15-repeated-index-revert-blocks", prop="C15", file=S, expect="R15h",
+         old='                    if idx in idx_map and idx_map[idx] != spin:\n                        break\n                    idx_map[idx] = spin\n                else:\n                    object_idx_maps.append(idx_map)',
+         new='                    if idx in idx_map and idx_map[idx] != spin:\n                        raise ValueError("Found invalid allowed spin block "\n                                         f"{block} for {obj}.")\n                    idx_map[idx] = spin\n                object_idx_maps.append(idx_map)'),
+    dict(id="c15-repeated-index-block-kept", prop="C15", file=S, expect="R15f",
+         old='                if idx_map["a"] & idx_map["b"]:\n                    continue\n                obj_spin_idx_maps.append(idx_map)',
+         new='                obj_spin_idx_maps.append(idx_map)'),
+    dict(id="c15-repeated-index-last-spin-wins", prop="C15", file=S, expect="R15h",
+         old='                    if idx in idx_map and idx_map[idx] != spin:\n                        break\n                    idx_map[idx] = spin\n                else:\n                    object_idx_maps.append(idx_map)',
+         new='                    idx_map[idx] = spin\n                object_idx_maps.append(idx_map)'),
     # ------------------------------------------------------------------ behaviour preserving
     dict(id="c15-ok-copy-comprehension", prop="C15", file=S, expect=None, old=_COPY,
          new="                        complete_variant = {\"a\": set(idx_map[\"a\"]), \"b\": set(idx_map[\"b\"])}"),
@@ -302,9 +315,10 @@ WITNESSES = [
                 idx_map = {"a": set(), "b": set()}
 ''' + _FILTER_OLD + '''                if not valid:
                     continue
+                # an index that occurs twice on the object can not have
+                # two different spins: the block vanishes
                 if idx_map["a"] & idx_map["b"]:
-                    raise ValueError("Found invalid allowed spin block "
-                                     f"{block} for {obj}.")
+                    continue
                 obj_spin_idx_maps.append(idx_map)
 ''', '''            obj_spin_idx_maps = _compatible_blocks(obj, allowed_blocks,
                                                    target_idx_spin_map)
@@ -317,10 +331,8 @@ WITNESSES = [
             continue
         idx_map = {sp: {idx for spin, idx in pairs if spin == sp}
                    for sp in "ab"}
-        if not idx_map["a"].isdisjoint(idx_map["b"]):
-            raise ValueError("Found invalid allowed spin block "
-                             f"{block} for {obj}.")
-        maps.append(idx_map)
+        if idx_map["a"].isdisjoint(idx_map["b"]):
+            maps.append(idx_map)
     return maps
 
 
